@@ -293,3 +293,87 @@ pub fn evm_leak(func: &str) -> String {
     };
     format!("journal_accounts_after={} rejected={}", evm.context.evm.inner.journaled_state.state.len(), r)
 }
+
+// ---------------------------------------------------------------- inspector call/create notifications are balanced
+#[derive(Default)]
+struct CountingInspector {
+    calls: i64,
+    call_ends: i64,
+    creates: i64,
+    create_ends: i64,
+    short_circuit_calls: bool,
+    depth: i64,
+    max_depth_mismatch: bool,
+}
+impl<DB: Database> revm::Inspector<DB> for CountingInspector {
+    fn call(&mut self, _c: &mut EvmContext<DB>, inputs: &mut CallInputs) -> Option<revm::interpreter::CallOutcome> {
+        self.calls += 1;
+        self.depth += 1;
+        if self.short_circuit_calls && self.calls > 1 {
+            use revm::interpreter::{CallOutcome, Gas, InstructionResult, InterpreterResult};
+            return Some(CallOutcome::new(
+                InterpreterResult::new(InstructionResult::Stop, Bytes::new(), Gas::new(inputs.gas_limit)),
+                inputs.return_memory_offset.clone(),
+            ));
+        }
+        None
+    }
+    fn call_end(&mut self, _c: &mut EvmContext<DB>, _i: &CallInputs, o: revm::interpreter::CallOutcome) -> revm::interpreter::CallOutcome {
+        self.call_ends += 1;
+        self.depth -= 1;
+        if self.depth < 0 {
+            self.max_depth_mismatch = true;
+        }
+        o
+    }
+    fn create(&mut self, _c: &mut EvmContext<DB>, _i: &mut CreateInputs) -> Option<revm::interpreter::CreateOutcome> {
+        self.creates += 1;
+        None
+    }
+    fn create_end(&mut self, _c: &mut EvmContext<DB>, _i: &CreateInputs, o: revm::interpreter::CreateOutcome) -> revm::interpreter::CreateOutcome {
+        self.create_ends += 1;
+        o
+    }
+}
+
+/// Runs (a) a call into code that itself calls a precompile, an empty account and creates a contract, (b) the same with the
+/// inspector short-circuiting inner calls, and reports the notification counts.
+pub fn inspector_balance() -> String {
+    use revm::primitives::TxKind;
+    use revm::{inspector_handle_register, Evm};
+    // PUSH1 0 x5 PUSH1 4 GAS CALL POP (call identity precompile); PUSH1 0 x5 PUSH2 0x9999 GAS CALL POP (empty account);
+    // PUSH1 0 PUSH1 0 PUSH1 0 CREATE POP; STOP
+    let code: Vec<u8> = vec![
+        0x60, 0, 0x60, 0, 0x60, 0, 0x60, 0, 0x60, 0, 0x60, 4, 0x5a, 0xf1, 0x50, //
+        0x60, 0, 0x60, 0, 0x60, 0, 0x60, 0, 0x60, 0, 0x61, 0x99, 0x99, 0x5a, 0xf1, 0x50, //
+        0x60, 0, 0x60, 0, 0x60, 0, 0xf0, 0x50, 0x00,
+    ];
+    let mut out = String::new();
+    let mut bad = false;
+    for short in [false, true] {
+        let mut db = CacheDB::new(EmptyDB::default());
+        db.insert_account_info(CALLER, AccountInfo { nonce: 0, balance: U256::from(1_000_000_000u64), code_hash: B256::default(), code: None });
+        let bc = Bytecode::new_legacy(Bytes::from(code.clone()));
+        db.insert_account_info(TARGET, AccountInfo { nonce: 1, balance: U256::ZERO, code_hash: bc.hash_slow(), code: Some(bc) });
+        let insp = CountingInspector { short_circuit_calls: short, ..Default::default() };
+        let mut evm = Evm::builder()
+            .with_db(db)
+            .with_external_context(insp)
+            .with_spec_id(SpecId::CANCUN)
+            .modify_tx_env(|tx| {
+                tx.caller = CALLER;
+                tx.transact_to = TxKind::Call(TARGET);
+                tx.gas_limit = 1_000_000;
+                tx.gas_price = U256::from(1);
+            })
+            .append_handler_register(inspector_handle_register)
+            .build();
+        let ok = evm.transact().is_ok();
+        let i = &evm.context.external;
+        if i.calls != i.call_ends || i.creates != i.create_ends || i.max_depth_mismatch || i.depth != 0 || !ok {
+            bad = true;
+        }
+        out += &format!("[short_circuit={} ok={} call={} call_end={} create={} create_end={}] ", short, ok, i.calls, i.call_ends, i.creates, i.create_ends);
+    }
+    format!("{}{}", if bad { "UNBALANCED " } else { "balanced " }, out)
+}
